@@ -55,10 +55,18 @@ type reqRun struct {
 // the EDNS layer in front of the cache (it owns the OPT / EDE of wire-served replies)
 var ednsLayer *edns.EDNS
 
+func newCacheWith(minTTL, maxTTL time.Duration, clock *vclock) *mcache.Cache {
+	return newCache(mCfg{Enabled: true, minD: minTTL, maxD: maxTTL}, clock)
+}
+
 func newCache(cfg mCfg, clock *vclock) *mcache.Cache {
 	c := &config.Config{CacheSize: 1024, Expire: 300}
 	c.RecursionFirewall.FailureCacheMinTTL.Duration = time.Duration(cfg.Min) * time.Second
 	c.RecursionFirewall.FailureCacheMaxTTL.Duration = time.Duration(cfg.Max) * time.Second
+	if cfg.maxD > 0 {
+		c.RecursionFirewall.FailureCacheMinTTL.Duration = cfg.minD
+		c.RecursionFirewall.FailureCacheMaxTTL.Duration = cfg.maxD
+	}
 	c.RecursionFirewall.FailureCacheSize = 4096
 	c.ECS = config.ECSConfig{Enabled: true, ForwardV4Max: 32, ForwardV6Max: 64, MinScopeV4: 24, MinScopeV6: 56}
 	if !cfg.Enabled {
@@ -700,12 +708,11 @@ func TestRequestReplay(t *testing.T) {
 		t.Fatal(err)
 	}
 	defer tr.close()
-	rng := vh.Rand()
 	for pi, p := range in.Paths {
 		if len(res.Skipped) > 0 {
 			break
 		}
-		r := newReqRun(&in, res, tr, pi, rng, p.ID, "TestRequestReplay")
+		r := newReqRun(&in, res, tr, pi+in.ShapeBase, pathRand(p.ID), p.ID, "TestRequestReplay")
 		if r.store == nil {
 			res.Skip("cache.Store() is not a *cache.Store")
 			break
